@@ -53,6 +53,24 @@ def residue_rule(scope, owner_filter=None, rule="RESIDUE"):
         obs.append(Ob(r, "%s:universe" % scope, uni_in >= floor_uni, "%d potential panic sites (MIR asserts and panicking calls) lie in the %s scope of %d functions" % (uni_in, scope, len(fns))))
         n_res = 0
         n_std = 0
+        # file-level budgets: distinct residual expressions per (file, kind), ledger vs now
+        owner_file = {}
+        for (owner, kind), sites in grp.items():
+            for pos in sites:
+                if pos != "-":
+                    owner_file.setdefault(owner, pos.rsplit(":", 2)[0])
+        file_led = defaultdict(int)
+        for e0 in ledger["entries"]:
+            fl = e0.get("file")
+            if fl:
+                file_led[(fl, e0["kind"])] += e0["max_sites"]
+        file_now = defaultdict(int)
+        for (owner, kind), sites in grp.items():
+            if owner.startswith("(std)"):
+                continue
+            fl = owner_file.get(owner)
+            if fl:
+                file_now[(fl, kind)] += len({(s0.get("snippet") or s0.get("std_loc") or s0["pos"])[:100] for s0 in sites.values()})
         for (owner, kind), sites in sorted(grp.items()):
             if owner.startswith("(std)"):
                 # invariant checks inside instantiated alloc/core generics with no crate frame (BTree nodes, sort, RangeFrom
@@ -70,6 +88,14 @@ def residue_rule(scope, owner_filter=None, rule="RESIDUE"):
             e = led.get((owner, kind))
             descr = "; ".join(sorted(x[:70] for x in snips))[:300]
             where = sorted(sites)[0]
+            fkey = (where.rsplit(":", 2)[0], kind)
+            if (e is None or len(snips) > e["max_sites"]) and file_now.get(fkey, 0) <= file_led.get(fkey, 0):
+                # the function is new (or grew) but its file has no more residual expressions of this kind than the reviewed
+                # ledger allows for that file: sites moved between functions of one file (helper extracted / inlined)
+                obs.append(Ob(r, "%s|%s" % (owner, kind), True,
+                              "%d residual %s expression(s) in %s: within the file-level budget of the ledger (%d <= %d for %s) - moved between functions of the same file" % (
+                                  len(snips), kind, owner, file_now.get(fkey, 0), file_led.get(fkey, 0), fkey[0]), site=where, undecided=True))
+                continue
             if e is None:
                 obs.append(Ob(r, "%s|%s" % (owner, kind), False,
                               "%d residual %s site(s) in %s that the compiler cannot prove unreachable and the ledger does not list: %s" % (len(sites), kind, owner, descr), site=where))
